@@ -1005,6 +1005,14 @@ def falsify(ctx, hints):
             c2["span"] = {"a": a1, "b": rng.randint(a1, c["start"] + nn - 1), "form": "up"}
         if not hp_well_posed(c2):
             continue
+        # the two calls must pose the same constraints: a change constraint dated at the first period of the
+        # filter span has no predecessor and is dropped by the implementation (_remove_first_date_change), so a
+        # span reaching further back activates it -- that is a different problem, not a clipping of the same one
+        sa, _, lca, cca = hp_setup(c)
+        sb, _, lcb, ccb = hp_setup(c2)
+        if {(sa + p, v) for p, v in lca + cca} != {(sb + p, v) for p, v in lcb + ccb} or len(cca) != len(ccb):
+            info["extension_skipped_first_date_change"] = info.get("extension_skipped_first_date_change", 0) + 1
+            continue
         o1, o2 = run_hpf(c), run_hpf(c2)
         info["extension_checks"] += 1
         if "err" in o1 or "err" in o2:
